@@ -38,6 +38,7 @@ struct Sched {
     /// per thread: did the running op read the clock (=> it was in a time-dependent branch)
     clock_reads_in_op: Vec<u32>,
     switches_inside_op: u64,
+    fine_switches: std::collections::BTreeSet<&'static str>,
 }
 
 struct Shared {
@@ -53,6 +54,13 @@ impl Shared {
     /// Called by the running thread at a yield point: maybe hand over to another thread, then
     /// wait until scheduled again.
     fn yield_point(&self, me: usize, inside_op: bool) {
+        self.yield_at(me, inside_op, None)
+    }
+
+    /// `fine` = name of a scheduling point between two atomic steps of a transition (hook H4);
+    /// a switch there is recorded, because a violation that needs one is a different finding
+    /// from one that only needs switches at operation boundaries and clock reads
+    fn yield_at(&self, me: usize, inside_op: bool, fine: Option<&'static str>) {
         let mut s = self.st.lock().unwrap();
         let runnable: Vec<usize> = (0..s.finished.len()).filter(|i| !s.finished[*i]).collect();
         if runnable.len() > 1 {
@@ -66,7 +74,12 @@ impl Shared {
                 if inside_op {
                     s.switches_inside_op += 1;
                 }
-                s.trace.push(json!({"switch": [me, next], "inside_op": inside_op}));
+                if let Some(point) = fine {
+                    s.fine_switches.insert(point);
+                    s.trace.push(json!({"switch": [me, next], "inside_op": inside_op, "between_atomic_steps_at": point}));
+                } else {
+                    s.trace.push(json!({"switch": [me, next], "inside_op": inside_op}));
+                }
                 s.current = next;
                 self.cv.notify_all();
             }
@@ -95,12 +108,16 @@ impl Shared {
 
 #[derive(Default)]
 struct Judge {
-    /// record_failure calls begun since the last completed record_success (upper bound of
-    /// "consecutive failures")
-    failures_since_success: u32,
-    /// record_failure calls that have begun and not yet returned (they may take effect after a
-    /// success that completes in the meantime, so a completing success resets the count to them)
-    failures_in_flight: u32,
+    /// logical time: advanced at the begin and at the completion of every operation
+    tick: u64,
+    /// (begin, completion) of every record_failure call
+    failures: Vec<(u64, Option<u64>)>,
+    /// latest begin time among the record_success calls that have completed. An operation may
+    /// take effect anywhere between its begin and its completion, so the most permissive
+    /// reading puts every completed success at its begin and every failure as late as possible:
+    /// the failures that can count as consecutive at an opening are those that were still
+    /// running (or had not begun) at that time
+    latest_completed_success_begin: u64,
     /// probes admitted in the current half-open episode (incl. the transition call)
     episode_probes: u32,
     last_state: Option<CircuitState>,
@@ -126,7 +143,7 @@ impl Check for C26 {
         "exploration"
     }
     fn rule(&self) -> String {
-        "case = breaker configuration (failure threshold 1-4, recovery timeout 0-50 ms, half-open max calls 1-3, success threshold 1-3) + 1-3 threads each with a generated list of operations (should_allow_request, record_success, record_failure, estimated_recovery_time) + a schedule and clock advances (0-60 ms, including no advance) taken from the tape. Exactly one thread runs at a time; threads are switched only at yield points (before each operation and at each clock read inside the breaker, hook H4), so the tape fully determines the interleaving and a failure replays and shrinks. Oracles: no operation panics; a Closed->Open step needs at least failure_threshold record_failure calls begun since the last completed record_success; per half-open episode at most half_open_max_calls requests are admitted, counting the call that performs the Open->HalfOpen transition. Non-trivial: a thread switch happened at a clock read inside an operation, or (single thread) a complete open -> half-open -> probe sequence ran.".into()
+        "case = breaker configuration (failure threshold 1-4, recovery timeout 0-50 ms, half-open max calls 1-3, success threshold 1-3) + 1-3 threads each with a generated list of operations (should_allow_request, record_success, record_failure, estimated_recovery_time) + a schedule and clock advances (0-60 ms, including no advance) taken from the tape. Exactly one thread runs at a time; threads are switched only at yield points (before each operation, at each clock read inside the breaker, and - named, recorded - after each state change inside a transition, i.e. between two of its atomic steps; all through hook H4), so the tape fully determines the interleaving and a failure replays and shrinks. Oracles: no operation panics; a Closed->Open step needs at least failure_threshold record_failure calls that can have taken effect (were still running or began) after the begin of the latest completed record_success - the most permissive placement of every operation inside its own interval; per half-open episode at most half_open_max_calls requests are admitted, counting the call that performs the Open->HalfOpen transition. Non-trivial: a thread switch happened at a clock read inside an operation, or (single thread) a complete open -> half-open -> probe sequence ran.".into()
     }
     fn assumptions(&self) -> Vec<String> {
         vec![
@@ -161,7 +178,7 @@ impl Check for C26 {
             advances.push(*t.pick(&[0u64, 1, 10, 60]));
         }
         let shared = Arc::new(Shared {
-            st: Mutex::new(Sched { current: 0, finished: vec![false; n_threads], decisions, next_decision: 0, advances, next_advance: 0, now: 1_000_000, trace: Vec::new(), clock_reads_in_op: vec![0; n_threads], switches_inside_op: 0 }),
+            st: Mutex::new(Sched { current: 0, finished: vec![false; n_threads], decisions, next_decision: 0, advances, next_advance: 0, now: 1_000_000, trace: Vec::new(), clock_reads_in_op: vec![0; n_threads], switches_inside_op: 0, fine_switches: Default::default() }),
             cv: Condvar::new(),
         });
         // clock hook: advance the virtual time, then yield
@@ -186,6 +203,21 @@ impl Check for C26 {
                 Some(now)
             })));
         }
+        {
+            let shared = shared.clone();
+            // half of the cases (by a hash of the header slot) never switch between atomic steps, so
+            // the coarser schedules - whose violations are not covered by the listed findings -
+            // keep being explored at full strength
+            let fine_enabled = vlib::fnv1a(&t.slots().first().map(|s| s.iter().flat_map(|w| w.to_le_bytes()).collect::<Vec<u8>>()).unwrap_or_default()) % 2 == 0;
+            sierradb_cluster::verif::set_sched(Some(Arc::new(move |point: &'static str| {
+                if !fine_enabled {
+                    return;
+                }
+                if let Some(me) = ME.with(|m| m.get()) {
+                    shared.yield_at(me, true, Some(point));
+                }
+            })));
+        }
         let breaker = Arc::new(WriteCircuitBreaker::new(threshold, Duration::from_millis(recovery_ms), max_calls, success_threshold));
         let judge = Arc::new(Mutex::new(Judge { last_state: Some(CircuitState::Closed), ..Default::default() }));
         let mut handles = Vec::new();
@@ -201,14 +233,18 @@ impl Check for C26 {
                     }
                     // observe the state right before the op (we are the only running thread)
                     let pre = breaker.current_state();
-                    {
+                    let (my_failure, my_begin) = {
                         let mut j = judge.lock().unwrap();
                         observe(&mut j, pre, threshold);
+                        j.tick += 1;
+                        let begin = j.tick;
+                        let mut idx = None;
                         if op == Op::Failure {
-                            j.failures_since_success += 1;
-                            j.failures_in_flight += 1;
+                            j.failures.push((begin, None));
+                            idx = Some(j.failures.len() - 1);
                         }
-                    }
+                        (idx, begin)
+                    };
                     shared.st.lock().unwrap().clock_reads_in_op[ti] = 0;
                     let r = catch_unwind(AssertUnwindSafe(|| match op {
                         Op::Allow => Some(breaker.should_allow_request()),
@@ -228,8 +264,10 @@ impl Check for C26 {
                     let post = breaker.current_state();
                     let clock_reads = shared.st.lock().unwrap().clock_reads_in_op[ti];
                     let mut j = judge.lock().unwrap();
-                    if op == Op::Failure {
-                        j.failures_in_flight -= 1;
+                    j.tick += 1;
+                    let done = j.tick;
+                    if let Some(i) = my_failure {
+                        j.failures[i].1 = Some(done);
                     }
                     shared.st.lock().unwrap().trace.push(json!({"thread": ti, "op": format!("{op:?}"), "pre": state_name(pre), "post": state_name(post), "result": r.as_ref().ok().cloned().flatten()}));
                     match r {
@@ -240,7 +278,7 @@ impl Check for C26 {
                         }
                         Ok(res) => {
                             if op == Op::Success {
-                                j.failures_since_success = j.failures_in_flight;
+                                j.latest_completed_success_begin = j.latest_completed_success_begin.max(my_begin);
                             }
                             if op == Op::Allow && res == Some(true) {
                                 let open_branch = clock_reads > 0; // only the Open branch reads the clock
@@ -270,14 +308,23 @@ impl Check for C26 {
             let _ = h.join();
         }
         sierradb_cluster::verif::set_clock(None);
+        sierradb_cluster::verif::set_sched(None);
         let j = judge.lock().unwrap();
         let s = shared.st.lock().unwrap();
         if let Some((sig, msg)) = &j.violation {
-            out.fail(format!("C26/{sig}"), msg.clone());
+            if s.fine_switches.is_empty() || sig == "panic" {
+                out.fail(format!("C26/{sig}"), msg.clone());
+            } else {
+                let points: Vec<&str> = s.fine_switches.iter().copied().collect();
+                out.fail(format!("C26/{sig}/needs-switch-between-atomic-steps"), format!("{msg} [the schedule switches threads between two atomic steps of a transition, at: {}]", points.join(", ")));
+            }
         }
         out.count("thread_switches_inside_operations", s.switches_inside_op);
         out.count("half_open_episodes", j.episodes as u64);
         out.count("opens", j.opens as u64);
+        if !s.fine_switches.is_empty() {
+            out.class("switched-between-atomic-steps");
+        }
         if n_threads > 1 {
             out.class("concurrent");
         } else {
@@ -293,8 +340,10 @@ fn observe(j: &mut Judge, now_state: CircuitState, threshold: u32) {
     if let Some(prev) = j.last_state {
         if prev == CircuitState::Closed && now_state == CircuitState::Open {
             j.opens += 1;
-            if j.failures_since_success < threshold && j.violation.is_none() {
-                j.violation = Some(("opened-early".into(), format!("the breaker went from closed to open after only {} record_failure call(s) since the last completed record_success (failure_threshold = {threshold})", j.failures_since_success)));
+            let t0 = j.latest_completed_success_begin;
+            let countable = j.failures.iter().filter(|(_, end)| end.map(|e| e > t0).unwrap_or(true)).count() as u32;
+            if countable < threshold && j.violation.is_none() {
+                j.violation = Some(("opened-early".into(), format!("the breaker went from closed to open although only {countable} record_failure call(s) can have taken effect after the latest completed record_success began (failure_threshold = {threshold})")));
             }
         }
         if now_state == CircuitState::Closed {
